@@ -176,7 +176,67 @@ fn explore_cfg(ctx: &Ctx, obs: &Observer, edges: &Edges, per_depth: &std::sync::
     }
 }
 
+/// Item shapes (E3): items whose `Hash` impl issues several `write` calls of awkward lengths
+/// (strings of every length 0..=70, byte slices, u64 tuples of 1..=6 members, nested tuples),
+/// one insert each into fresh filters of three configurations, bit array against the
+/// reference positions computed from the recorded byte sequence.
+fn item_shapes(ctx: &Ctx) -> u64 {
+    use crate::c16::recorded_bytes;
+    use crate::refhash;
+    use datasketches::bloom::BloomFilterBuilder;
+    fn one<T: std::hash::Hash + std::fmt::Debug>(ctx: &Ctx, item: &T, label: &str) -> u64 {
+        let bytes = recorded_bytes(item);
+        let mut n = 0;
+        for (bits, hashes, seed) in [(1000u64, 5u16, 9001u64), (64, 3, 0), (4096, 16, u64::MAX)] {
+            let mut f = BloomFilterBuilder::with_size(bits, hashes).seed(seed).build();
+            f.insert(item);
+            let cap = f.capacity() as u64;
+            let h0 = refhash::xxh64(&bytes, seed);
+            let h1 = refhash::xxh64(&bytes, h0);
+            let mut want = vec![0u64; (cap / 64) as usize];
+            for i in 1..=hashes as u64 {
+                let p = (h0.wrapping_add(i.wrapping_mul(h1)) >> 1) % cap;
+                want[(p / 64) as usize] |= 1 << (p % 64);
+            }
+            let img = f.serialize();
+            let got: Vec<u64> = img[32..].chunks(8).map(|c| u64::from_le_bytes(c.try_into().unwrap())).collect();
+            n += 1;
+            if got != want || !f.contains(item) {
+                ctx.violation(
+                    "bloom.bits.item_shape",
+                    &format!("BloomFilter({bits} bits, {hashes} hashes, seed {seed}): bit array after inserting {label} {:?} ({} hashed bytes) differs from the reference positions", item, bytes.len()),
+                    json!({"kind":"bloom_item_shape","label":label,"item":format!("{:?}", item),"hashed_bytes":crate::common::hex(&bytes),"bits":bits,"hashes":hashes,"seed":seed}),
+                );
+            }
+        }
+        n
+    }
+    let mut n = 0;
+    for len in 0..=70usize {
+        let s: String = (0..len).map(|i| (b'a' + (i % 26) as u8) as char).collect();
+        n += one(ctx, &s.as_str(), "&str");
+        n += one(ctx, &s, "String");
+        let v: Vec<u8> = (0..len).map(|i| (i * 7 + 1) as u8).collect();
+        n += one(ctx, &v.as_slice(), "&[u8]");
+    }
+    n += one(ctx, &(1u64,), "tuple1");
+    n += one(ctx, &(1u64, 2u64), "tuple2");
+    n += one(ctx, &(1u64, 2u64, 3u64), "tuple3");
+    n += one(ctx, &(1u64, 2u64, 3u64, 4u64), "tuple4");
+    n += one(ctx, &(1u64, 2u64, 3u64, 4u64, 5u64), "tuple5");
+    n += one(ctx, &(1u64, 2u64, 3u64, 4u64, 5u64, 6u64), "tuple6");
+    n += one(ctx, &(1u128, 2u128), "tuple of u128");
+    n += one(ctx, &(7u8, 1u64, 2u32, "abc"), "mixed tuple");
+    n += one(ctx, &[1u64, 2, 3, 4], "array of u64");
+    n += one(ctx, &("0123456789012345678901234567890", 5u8), "31-byte str in a tuple");
+    ctx.count("E3 item shapes: single inserts compared with reference positions", n);
+    ctx.add_states(n);
+    ctx.add_transitions(n);
+    n
+}
+
 pub fn explore(ctx: &Ctx, obs: &Observer) {
+    item_shapes(ctx);
     let mut js = jobs(ctx.tier);
     if ctx.reduced {
         // observer runs: every 4th configuration (still every size), one level shallower
